@@ -6,16 +6,20 @@ PATS = [b"*IDN?", b"*RST", b"TEST:A?", b"TEST:B?", b"TEST:SUB:C?", b"II", b"SYST
         # trailing optional numeric keywords (defaults for skipped suffixes), an optional keyword between two mandatory ones followed by an
         # overlapping pattern, and two patterns one header matches (first entry wins)
         b"TRIGger#[:SEQuence#][:LEVel#]", b"[:SOURce]:VOLTage[:LEVel]:TRIGgered[:AMPLitude]", b"[:SOURce]:VOLTage[:LEVel][:IMMediate][:AMPLitude]",
-        b"CHANnel[:STATe]", b"CHANnel#[:STATe]"]
+        b"CHANnel[:STATe]", b"CHANnel#[:STATe]",
+        # keywords with a digit or an underscore in the capital part: the short form ends where the lower-case letters begin
+        b"SOURce:BB:W3GPp:STATe", b"SOURce:BB:W:STATe", b"SYSTem:COMMunicate:RS232:BAUD", b"OUT_Aux:LEVel"]
 HEAD = [b"*IDN?", b"*idn?", b"*RST", b"TEST:A?", b":TEST:A?", b"test:b?", b"B?", b"A?", b"SUB:C?", b"TEST:SUB:C?", b"C?", b"II", b"ii", b"SYST:ERR?",
         b"SYSTEM:ERROR:NEXT?", b"ERR?", b"MEAS:VOLT?", b"MEASURE:SCALAR:VOLTAGE:DC?", b"MEAS:SCAL:VOLT?", b"VOLT?", b"OUTP:FREQ", b"OUTP2:FREQ3",
         b"OUTPUT10:FREQUENCY", b"LEV", b"SOUR:LEV", b":SOURCE:LEVEL", b"TXT", b"BLK?", b"CH", b"N?", b"E?", b"CMDOUT", b"FOO", b"FOO:BAR?", b"X1",
         b"TEST:", b"*", b"TEST:A", b"TES:A?", b"TESTT:A?", b"*IDN", b":*IDN?", b"OUTP:FREQ1x"] + \
        [b"TRIG2", b"TRIG", b"TRIG2:LEV4", b"TRIG:SEQ3:LEV1", b"TRIG1:SEQ", b"VOLT", b"VOLT:LEV", b"VOLT:TRIG", b"SOUR:VOLT:LEV:IMM:AMPL", b"VOLT:IMM", b"VOLT:LEV:TRIG:AMPL",
-        b"CHAN", b"CHAN2", b"CHAN3:STAT", b"CHAN:STAT", b"LEV:TRIG", b"TRIG:AMPL"]
+        b"CHAN", b"CHAN2", b"CHAN3:STAT", b"CHAN:STAT", b"LEV:TRIG", b"TRIG:AMPL",
+        b"SOUR:BB:W3GP:STAT", b"SOUR:BB:W:STAT", b"SOUR:BB:W3GPP:STAT", b"SOUR:BB:W3:STAT", b"SYST:COMM:RS232:BAUD", b"SYST:COMM:RS:BAUD", b"OUT_A:LEV", b"OUT:LEV", b"OUT_AUX:LEV", b"out_a:lev"]
 GOOD = [b"*IDN?", b"*idn?", b"*RST", b"TEST:A?", b":TEST:A?", b"test:b?", b"B?", b"A?", b"SUB:C?", b"TEST:SUB:C?", b"C?", b"II", b"ii", b"SYST:ERR?", b"ERR?",
         b"MEAS:VOLT?", b"MEASURE:SCALAR:VOLTAGE:DC?", b"MEAS:SCAL:VOLT?", b"OUTP:FREQ", b"OUTP2:FREQ3", b"LEV", b"SOUR:LEV", b"TXT", b"BLK?", b"CH", b"N?", b"E?", b"CMDOUT",
-        b"TRIG2", b"TRIG", b"TRIG2:LEV4", b"TRIG:SEQ3:LEV1", b"VOLT", b"VOLT:LEV", b"VOLT:TRIG", b"VOLT:IMM", b"CHAN", b"CHAN2", b"CHAN3:STAT", b"CHAN:STAT"]
+        b"TRIG2", b"TRIG", b"TRIG2:LEV4", b"TRIG:SEQ3:LEV1", b"VOLT", b"VOLT:LEV", b"VOLT:TRIG", b"VOLT:IMM", b"CHAN", b"CHAN2", b"CHAN3:STAT", b"CHAN:STAT",
+        b"SOUR:BB:W3GP:STAT", b"SOUR:BB:W:STAT", b"SYST:COMM:RS232:BAUD", b"OUT_A:LEV"]
 DATA = [b"MAX", b"min", b"DEFAULT", b"INF", b"nan", b"UP", b"1.5e3", b"-2.5E-3", b"0.1", b"1e400", b"1e-400", b"12 MV", b"3.3mv", b"10 khz", b"1.2MOHM",
         b"5 S", b"7 xyz", b"2.5e-3 A", b"100 PCT", b"1 MNT", b"#HFF V", b"1", b"-5", b"+7", b"42", b"1.5", b"1e3", b"4294967296",
         b"-2147483648", b"99999999999999999999", b"#HFF", b"#hff", b"#Q17", b"#B101", b"#H1FFFFFFFF", b"ON", b"OFF", b"on", b"BUS", b"IMM", b"imm",
